@@ -658,6 +658,8 @@ def c08_endings(victim_kind):
     }
 
     if victim_kind != 'sink':      # has outputs
+        # exit_after together with outputs_timeout while the downstream is stalled: the deadline must still end the filter
+        e['exit-after-outtimeout'] = ({'config': {'exit_after': 0.3, 'outputs_timeout': 200}}, {'stall_sinks': True}, 'clean')
         e['raise-send']       = ({'ops_extra': [('callable_raise', 2)]}, {}, 'error')
         e['init-bind-first']  = ({}, {'fail_bind': 'PUB'}, 'init-error')
         e['init-bind-second'] = ({}, {'fail_bind': 'PULL'}, 'init-error')
@@ -678,7 +680,9 @@ def c08_family(tier):
             vk = 'source' if victim == 'src' else 'sink' if victim in ('snk', 'a', 'b') else 'relay'
 
             for ename, (fpatch, extras, kind) in c08_endings(vk).items():
-                if kind == 'init-error' or ename.startswith('exit-after') or ename == 'exit-shutdown':
+                if ename == 'exit-after-outtimeout':
+                    pols = [('none', 'all')]       # (neighbours blocked behind the stalled sink cannot hear an announcement)
+                elif kind == 'init-error' or ename.startswith('exit-after') or ename == 'exit-shutdown':
                     pols = [('clean', 'all')]      # policies do not matter / default policy
                 elif full or (pname == 'chain3' and victim == 'mid' and ename in ('exit-process2', 'raise-process2')):
                     pols = [(p, o) for p in POLICIES for o in POLICIES]
@@ -717,6 +721,10 @@ def c08_family(tier):
                         elif k == 'inject':
                             up = next(u for u, _, _, _ in sources_of(next(f for f in fs if f['name'] == victim)))
                             s['inject'] = [{'to': victim, 'from': up, 'at_ms': int(v.split('@')[1])}]
+                        elif k == 'stall_sinks':
+                            for f in fs:
+                                if f.get('kind') == 'sink':
+                                    f['ops'] = list(f.get('ops', ())) + [('stall_from', 1, 60_000)]
                         elif k == 'fail_bind':
                             s['fail_bind'] = {f'ipc://{victim}' + ('.req' if v == 'PULL' else ''): 0}
 
